@@ -99,7 +99,9 @@ OBLIGATIONS = {
          ['(isinstance(parent, list) and comp._component_type in self._g[self._get_index(ELEM(parent))]._child_types) or (not isinstance(parent, list) and comp._component_type in self._g[self._get_index(parent)]._child_types)']),
         ("single-pmux", "there is at most one PMux",
          ['comp._component_type != _ComponentTypes.PMUX or not (self._g[%s[ELEM(%s)]]._component_type == _ComponentTypes.PMUX)' % (NODES, NODES),
-          'comp._component_type != _ComponentTypes.PMUX or not (self._g[ELEM(%s.values())]._component_type == _ComponentTypes.PMUX)' % NODES]),
+          'comp._component_type != _ComponentTypes.PMUX or not (self._g[ELEM(%s.values())]._component_type == _ComponentTypes.PMUX)' % NODES,
+          'comp._component_type != _ComponentTypes.PMUX or not any(self._g[i_]._component_type == _ComponentTypes.PMUX for i_ in %s.values())' % NODES,
+          'comp._component_type != _ComponentTypes.PMUX or not any(self._g[%s[k_]]._component_type == _ComponentTypes.PMUX for k_ in %s)' % (NODES, NODES)]),
     ],
     "change_comp": [
         ("target-exists", "the edited component exists", ["name in %s" % NODES]),
@@ -117,7 +119,9 @@ OBLIGATIONS = {
          ["self._g[self._get_index(name)]._component_type != _ComponentTypes.PMUX or isinstance(comp, PMux)"]),
         ("no-new-pmux", "there is at most one PMux",
          ['self._g[self._get_index(name)]._component_type == _ComponentTypes.PMUX or comp._component_type != _ComponentTypes.PMUX or not (self._g[%s[ELEM(%s)]]._component_type == _ComponentTypes.PMUX)' % (NODES, NODES),
-          'self._g[self._get_index(name)]._component_type == _ComponentTypes.PMUX or comp._component_type != _ComponentTypes.PMUX or not (self._g[ELEM(%s.values())]._component_type == _ComponentTypes.PMUX)' % NODES]),
+          'self._g[self._get_index(name)]._component_type == _ComponentTypes.PMUX or comp._component_type != _ComponentTypes.PMUX or not (self._g[ELEM(%s.values())]._component_type == _ComponentTypes.PMUX)' % NODES,
+          'self._g[self._get_index(name)]._component_type == _ComponentTypes.PMUX or comp._component_type != _ComponentTypes.PMUX or not any(self._g[i_]._component_type == _ComponentTypes.PMUX for i_ in %s.values())' % NODES,
+          'self._g[self._get_index(name)]._component_type == _ComponentTypes.PMUX or comp._component_type != _ComponentTypes.PMUX or not any(self._g[%s[k_]]._component_type == _ComponentTypes.PMUX for k_ in %s)' % (NODES, NODES)]),
         ("parent-admits-type", "every link is one add_comp would accept",
          ["self._get_parents()[self._get_index(name)] == -1 or comp._component_type in self._g[self._get_parents()[self._get_index(name)][0]]._child_types"]),
         ("type-admits-children", "every link is one add_comp would accept (loads have no children)",
